@@ -84,7 +84,8 @@ func (c *unlambdaChecker) VisitExpr(x ast.Expr) {
 		}
 
 		for _, id := range params.Names {
-			if !astequal.Expr(id, result.Args[n]) {
+			// Fewer arguments than parameters: the package doesn't type-check.
+			if n >= len(result.Args) || !astequal.Expr(id, result.Args[n]) {
 				return
 			}
 			n++
